@@ -318,7 +318,7 @@ func c09PerGenState(r *Run) {
 }
 
 func c09WriteBound(r *Run) {
-	const rule = "C09-R3-write-bound-to-socket"
+	rule := r.aliased("C09-R3-write-bound-to-socket")
 	w := r.W
 	// hsmsss
 	{
